@@ -24,6 +24,21 @@ func checkC06(c *Ctx, r *Report) {
 	r.rule("C06.R2", "in RestoreFromS3, after an error from DownloadIndex or ParseIndex the loop continues (next DownloadIndex or the l.segments store is reached) only through seg.baseOffset >= l.nextOffset", 2)
 	r.rule("C06.R3", "getPartitionLog: NewPartitionLog's start offset is store.NextOffset's result; the h.logs publication has passed err(RestoreFromS3)==nil", 2)
 
+	// ---- R0: an acknowledged record must already be in S3, otherwise no restart can recover it.
+	// These are C01's clauses (ack-after-flush, drained-batch typestate, Flush's wait-then-nil shape),
+	// re-evaluated here because C06 fails whenever one of them does.
+	r.rule("C06.R0", "C01.R1/R3/R4 hold (acknowledged ⇒ uploaded): prerequisites of crash safety", 6)
+	sub := newReport("C01")
+	checkC01(c, sub)
+	for _, x := range sub.Results {
+		if x.Status == Info {
+			continue
+		}
+		if x.Rule == "C01.R1" || x.Rule == "C01.R3" || x.Rule == "C01.R4" {
+			r.add("C06.R0", x.Rule+": "+x.Construct, x.Pos, x.Status, x.Detail)
+		}
+	}
+
 	// ---- R1
 	if uf := needFn(m, r, "C06.R1", pkgStorage, "(*PartitionLog).uploadFlush"); uf != nil {
 		for i, st := range storesToField(uf, "storage.PartitionLog", "segments") {
